@@ -16,6 +16,10 @@ open Netconan Netconan.Generated Netconan.IpText Netconan.IpCore
 
 theorem cfg_L_pos (cfg : IpCfg) : 0 < cfg.L := by unfold IpCfg.L; split <;> decide
 
+theorem should_dispatch (fam6 : Bool) (nets : List Mask.Net) (n : Nat) :
+    (if fam6 = true then Src.should_anonymize6 n else Src.should_anonymize nets n) = (fam6 || Mask.shouldAnonymize nets n) := by
+  cases fam6 <;> rfl
+
 /-- **`_anonymize_match` of the source = the pure `anonMatch`, on every reachable memo.** -/
 theorem anonymize_match_spec (cfg : IpCfg) (undo : Bool) (txt : List Char)
     (hbound : ∀ n, (if cfg.fam6 then parseV6 txt else parseV4 txt) = .ok n → n < 2 ^ cfg.L)
@@ -23,6 +27,7 @@ theorem anonymize_match_spec (cfg : IpCfg) (undo : Bool) (txt : List Char)
     ∃ c', Src.anonymize_match cfg.h cfg.fam6 cfg.nets cfg.L cfg.B txt undo c = .ok (anonMatch cfg undo txt, c') ∧
       Inv cfg.h cfg.pins cfg.L cfg.B c' ∧ (∀ e ∈ c, e ∈ c') := by
   unfold Src.anonymize_match anonMatch
+  simp only [should_dispatch]
   cases hp : (if cfg.fam6 then parseV6 txt else parseV4 txt) with
   | error e => exact ⟨c, by simp, hI, fun e he => he⟩
   | ok n =>
